@@ -622,7 +622,7 @@ def other_value_lines(ctx, tree, harness, cap=40000):
             m = importlib.import_module("props." + name); tg = time.time(); got = []
             for ln in m.gen_ops(random.Random("C14-%s-%d" % (name, ctx.seed)), "quick", c2):
                 op = ln.split(" ", 1)[0]
-                if VALUE_RE.match(op) and op in have and len(ln) < 200000: got.append(ln)
+                if VALUE_RE.match(op) and op in have and len(ln) < 200000 and not op.endswith("model"): got.append(ln)     # *model ops mirror the DEFAULT table's dispatch
                 if len(got) >= 60000 or time.time() - tg > 45: break
             byop = collections.defaultdict(list)
             for ln in got: byop[ln.split(" ", 1)[0]].append(ln)
@@ -685,6 +685,11 @@ def run_variant(ctx, var, jobs, cov):
         lines += other_value_lines(ctx, tree, harness)
         for f in sorted(glob.glob(os.path.join(vlib.VERIF, "corpus", ctx.pid, "*.ops"))):       # past failures, on every rebuilt library
             lines += [l.rstrip("\n") for l in open(f) if l.strip() and not l.startswith(("#", "@"))]
+        rc0, base, err0 = vlib.run_stream(ctx.harness, lines, timeout=3600)          # the default library on the same lines
+        if rc0 == 0 and len(base) == len(lines):
+            exc = re.compile(r"!(div0|sqrtneg|invalid|fpe)\b")
+            n0 = len(lines); lines = [l for l, b in zip(lines, base) if not exc.search(b)]     # no value is returned there: an assertion build may abort earlier
+            info["dropped_exception_lines"] = n0 - len(lines)
         rc, impl, err = vlib.run_stream(harness, lines, timeout=3600)
         ok_n = min(len(impl), len(lines))
         keep = [i for i in range(ok_n) if "!nokernel" not in impl[i]]
